@@ -19,7 +19,8 @@ def free_port():
 
 
 class Server:
-    def __init__(self, root=None):
+    def __init__(self, root=None, ollama='127.0.0.1:1'):
+        self.ollama = ollama
         self.root = root or tempfile.mkdtemp(prefix='syz_rest_', dir=os.path.join(WORK, 'data') if os.path.isdir(os.path.join(WORK, 'data')) else None)
         self.data = os.path.join(self.root, 'outer', 'data')
         os.makedirs(self.data, exist_ok=True)
@@ -29,7 +30,7 @@ class Server:
     def start(self):
         self.port = free_port()
         self.log = open(os.path.join(self.root, 'server.log'), 'ab')
-        self.proc = subprocess.Popen([SERVER_BIN, '--serve', '--data-folder', self.data, '--syzgy-host', '127.0.0.1:%d' % self.port, '--html-root', '', '--ollama-server', '127.0.0.1:1'],
+        self.proc = subprocess.Popen([SERVER_BIN, '--serve', '--data-folder', self.data, '--syzgy-host', '127.0.0.1:%d' % self.port, '--html-root', '', '--ollama-server', self.ollama],
                                      cwd=self.root, stdout=self.log, stderr=self.log)
         for _ in range(200):
             if self.proc.poll() is not None:
